@@ -23,6 +23,7 @@ ASSUMPTIONS = ["pthread mutex/cond semantics"]
 RULES_DOC = dict(common.SHARED_DOC)
 RULES_DOC["X4"] = common.X4_DOC
 RULES_DOC["R7"] = "a scheduler is marked used = ABTI_SCHED_MAIN before it is installed as a stream's main scheduler (every store of a scheduler into ABTI_xstream::p_main_sched is preceded on its path by that store on the same scheduler): a running main scheduler cannot be given to a second stream or freed"
+RULES_DOC["X5"] = common.X5_DOC
 RULES_DOC.update({
     "R1": "stream list mutations, rank stores, num_xstreams updates and list scans hold xstream_list_lock",
     "R2": "duplicate scan and insertion in one critical section; duplicate arm: release, return FALSE, list untouched",
@@ -448,6 +449,7 @@ def rule_R7(P, rep):
 
 
 def run(P, rep, tier):
+    common.rule_widths(P, rep, [('ABTI_global', 'num_xstreams'), ('ABTI_xstream', 'rank')])
     common.rule_X4(P, rep)
     common.run_shared(P, rep, which=("X2",))
     rule_R1_R2_R3(P, rep)
